@@ -8,7 +8,7 @@ def check(tier, seed):
     return G.generic_check(PID, "exploration", tier, seed, coq=False,
         rule="packed encoding: all 65,536 (from,to,type,promotion) combinations x 12 boundary/sampled sort values through CreateMove/CreateMoveValue/SetValue and every getter; notation: for every legal move of generated positions StringUci -> GetMoveFromUci, reference SAN (minimal and over-disambiguated, capture/promotion with and without '=', random check/annotation suffixes) -> GetMoveFromSan; random non-moves -> MoveNone; SAN with the needed disambiguation removed -> MoveNone; a case = one code/value pair or one move string",
         streams=[dict(name='notation_monitor', kind="monitor", shards=lambda t: 4 if t == "quick" else 16,
-                      args=lambda t, s, sh, path: ['c17-monitor', 400 if q else 20000, s * 1000 + sh])])
+                      args=lambda t, s, sh, path: ['c17-monitor', 400 if t == "quick" else 20000, s * 1000 + sh])])
 
 
 def replay(path):
